@@ -50,8 +50,13 @@ SPEC = {
         "the Lean machine only carries the reported flag",
         "`clear(keep_adaptations=False)` is used before comparing outputs (adaptive neurons keep adaptations across a "
         "plain clear() by design)",
-        "RecordReducer has no `inclusive` setter: inclusive varies over constructions only; reducer `duration` setter "
-        "requires > 0 while the constructor accepts 0 (0 is not reachable by assignment, outside the quantifier)",
+        "RecordReducer / synapses have no `inclusive` setter of their own: `inclusive` is assigned on their internal histories "
+        "through the public attributes (reducer.data_, synapse.spike_/current_/…) in a relational stream the Lean driver is "
+        "not asked about (it has no such request); there the oracle is the closed form max(ceil(duration/dt)+[inclusive],1) "
+        "plus a fresh instance wherever a constructor yields the configuration (synapse constructors always create inclusive "
+        "histories, so exclusive synapse histories are held against the closed form only and outputs are compared once the "
+        "histories are inclusive again). Reducer `duration` setter requires > 0 while the constructor accepts 0: duration 0 "
+        "enters through the constructor, delay 0 through constructor or setter",
         "connection weights / biases / learned delays are copied from the setter-built to the fresh instance before "
         "outputs are compared (they are randomly initialised by the constructor)",
         "layers are covered through their components (a Layer holds connections and neurons and has no setters of its own)",
@@ -60,6 +65,10 @@ SPEC = {
 DRIVER = "drivers/C14.lean"
 ERRS = {"RuntimeError", "ValueError", "TypeError", "AttributeError", "IndexError", "KeyError"}
 STATS = collections.Counter()
+
+
+class HarnessBug(Exception):
+    """a generator / executor error of this check (never a verdict about the code)"""
 
 
 def b(x):
@@ -251,6 +260,7 @@ class Real:
         self.syncls = None
         self.P = 0
         self.hasdelay = False
+        self.closed = False     # set once a record-level assignment was made: reports are then also held against the closed form
         self.g = torch.Generator().manual_seed(0)
 
     # -- construction
@@ -268,11 +278,44 @@ class Real:
             m = m.to(torch.float64)
         return m
 
+    def _twin(self):
+        """can a freshly constructed instance have the current configuration?  (every library synapse creates its
+        histories inclusive; a reducer takes `inclusive` as a constructor argument)"""
+        return self.kind not in ("syn", "con") or self.cfg.get("rincl", True)
+
+    def _closed_form(self, ra):
+        """independent oracle for record-level assignments: every internal history reports the expected
+        (dt, duration, inclusive) and holds max(ceil(duration / dt) + [inclusive], 1) observations (the documented size of a
+        RecordTensor, exact on the dyadic grid); the component's own dt / span getters are unchanged by it"""
+        c = self.cfg
+        if self.kind == "neu":
+            return []
+        dt = Fraction(c["dt"])
+        dur = Fraction(c["duration"] if self.kind == "red" else c["delay"])
+        if dt.denominator > 1024 or dur.denominator > 1024:
+            return []
+        incl = c["incl"] if self.kind == "red" else c.get("rincl", True)
+        n = max(-((-dur.numerator * dt.denominator) // (dur.denominator * dt.numerator)) + (1 if incl else 0), 1)
+        want = f"{n}:{q(dt)}:{q(dur)}:{b(incl)}"
+        f = dict(t.split("=", 1) for t in ra.split())
+        out = []
+        for i, r in enumerate(f["recs"].split("|")):
+            if r != "-" and r.rsplit(":", 1)[0] != want:
+                out.append(f"history {i}: reports size:dt:duration:inclusive `{r.rsplit(':', 1)[0]}`, closed form "
+                           f"max(ceil(duration/dt)+[inclusive],1) for the assigned configuration gives `{want}`")
+        if f["dt"] != q(dt):
+            out.append(f"component dt getter {f['dt']} after record-level assignment, configuration has {q(dt)}")
+        if f["span"] not in ("-", q(dur)):
+            out.append(f"component delay/duration getter {f['span']} after record-level assignment, configuration has {q(dur)}")
+        return out
+
     def exec(self, line):
         tok = [t for t in line.split() if not t.startswith("cls=") and not t.startswith("syn=")]
         meta = dict(t.split("=", 1) for t in line.split() if t.startswith(("cls=", "syn=")))
         try:
             return self._exec(tok, meta)
+        except HarnessBug:
+            raise
         except Exception as e:
             name = type(e).__name__
             r = "err " + (name if name in ERRS else "Other")
@@ -297,6 +340,7 @@ class Real:
             else:
                 self.cfg = dict(dt=fq(tok[1]), duration=fq(tok[2]), incl=tok[3] == "T", inplace=tok[4] == "T", dtype=tok[5])
             self.a = None
+            self.closed = False
             self.a = self.fresh()
             return ("ok", "ok", [])
         if self.a is None:
@@ -308,6 +352,12 @@ class Real:
             bm = self.fresh()
             ra, rb = report(self.kind, a), report(self.kind, bm)
             rel = []
+            if self.closed:
+                rel += self._closed_form(ra)
+            if not self._twin():
+                # no constructor produces this configuration (a synapse's histories are always created inclusive): the
+                # closed form above is the only oracle; the fresh instance is reported for the reader only
+                return (ra, rb, rel)
             if ra != rb:
                 rel.append(f"report: setter-built `{ra}` fresh `{rb}`")
             if self.kind == "con" and type(a.synapse).__name__ != type(bm.synapse).__name__:
@@ -344,6 +394,18 @@ class Real:
         elif attr == "dtype":
             a.to(tdt(tok[2]))
             self.cfg["dtype"] = tok[2]
+        elif attr == "inclusive":
+            # record-level assignment through the component's public history attributes (a reducer's `data_`, a
+            # synapse's `spike_` / `current_` …): `<component>.<history>.inclusive = v`
+            v = tok[2] == "T"
+            tgt = a.synapse if self.kind == "con" else a
+            names = [k for k, _ in records_of(tgt)]
+            if not names:
+                raise HarnessBug("set inclusive on a component without histories")
+            self.closed = True
+            self.cfg["incl" if self.kind == "red" else "rincl"] = v     # (what the assignment should produce)
+            for k in names:
+                getattr(tgt, k).inclusive = v
         elif attr == "synapse":
             new = dict(dt=fq(tok[3]), delay=fq(tok[4]), batch=int(tok[5]), inplace=tok[6] == "T", dtype=tok[7])
             # the replacement is itself brought to its configuration by assignment, from a different one
@@ -355,6 +417,7 @@ class Real:
                 syn.to(torch.float64)
             a.synapse = syn
             self.cfg.update(new)
+            self.cfg.pop("rincl", None)         # the replacement brings its own (inclusive) histories
             self.syncls = meta["cls"]
         else:
             raise AssertionError(tok)
@@ -413,6 +476,8 @@ class Real:
 
     def _run(self, seed, T):
         a = self.a
+        if not self._twin():
+            raise HarnessBug("run without a constructible twin (generator error)")
         bm = self.fresh()
         rel = []
         if self.kind == "con":
@@ -653,6 +718,58 @@ def float_cases(rng, thorough):
     return cases
 
 
+def inclusive_cases(rng, thorough):
+    """RECORD-LEVEL assignments (relational only: the Lean driver has no request for them): the internal histories of
+    a component are reachable through its public attributes (`reducer.data_`, `synapse.spike_` / `current_` / …), and
+    `inclusive` is an assignable property of each.  Sequences of `<history>.inclusive = v` interleaved with the
+    component's own setters (dt, delay / duration, batchsz, inplace, dtype) and simulation steps, over configurations in
+    which HALF of the histories are undelayed (delay 0 / duration 0 — the clamped branch of the size formula).  After
+    every assignment the instance is held against the closed form of the history size and (whenever a constructor
+    can produce the configuration) against a freshly constructed instance; the case ends inclusive for synapses (their
+    constructors create inclusive histories) with outputs from a cleared state"""
+    cases = []
+    fams = [("syn", c, None) for c in SYN] + [("red", c, None) for c in RED]
+    conns = CONN if thorough else ["LinearDense", "Conv2D"]
+    syns = list(SYN) if thorough else ["DeltaCurrent", "DoubleExponentialCurrent"]
+    fams += [("con", c, s_) for c in conns for s_ in syns]
+    reps = 8 if not thorough else 30
+    for kind, cls, syn in fams:
+        span = "duration" if kind == "red" else "delay"
+        for r in range(reps):
+            c = rand_cfg(rng, kind)
+            if r % 2 == 0:
+                c[span] = Fraction(0)
+            hd = c[span] != 0 or rng.random() < 0.5
+            cur = c["incl"] if kind == "red" else True
+            lines = [head_line(kind, cls, c, 3, syn, hd), "report"]
+            for _ in range(rng.randint(2, 6)):
+                x = rng.random()
+                if x < 0.2:
+                    lines.append(f"step {rng.randrange(1000)}")
+                    continue
+                if x < 0.75:
+                    cur = (not cur) if rng.random() < 0.8 else cur      # (re-assigning the same value is a setter call too)
+                    lines += [f"set inclusive {b(cur)}", "report"]
+                    continue
+                c2 = dict(c)
+                ln = rand_set(rng, kind, c2, 3, cls, malformed=False, hasdelay=hd)
+                if ln.startswith("set synapse"):
+                    continue
+                c = c2
+                lines += [ln, "report"]
+            if kind != "red" and not cur:
+                lines += ["set inclusive T", "report"]
+            lines.append(f"run {rng.randrange(10**6)} {rng.randint(3, 6)}")
+            cases.append(lines)
+    return cases
+
+
+def relational_only(case):
+    """cases the Lean driver is not asked about: non-representable step times / spans and record-level assignments"""
+    return (any("." in t for t in case[0].split() if not t.startswith(("cls=", "syn=")))
+            or any(l.startswith("set inclusive") for l in case))
+
+
 def random_case(rng):
     kind, cls, syn = rng.choice(families())
     P = rng.choice([2, 3])
@@ -745,14 +862,22 @@ def explore(ctx) -> Exploration:
             case={"ops": small, "index": d2[0], "expected": d2[2], "observed": d2[3],
                   "disagreement": ("setter-built vs freshly constructed instance (real code)" if d2[1] == "spec"
                                    else "real code vs model")}))
-    # non-representable stream: real code only (setter-built vs fresh), no driver
+    # relational streams: real code only (setter-built vs fresh / closed form), no driver
     flt = float_cases(rng, thorough)
+    inc = inclusive_cases(rng, thorough)
     nflt_found = 0
-    for case in flt:
+    ninc_found = 0
+    for case in flt + inc:
+        isinc = not any("." in t for t in case[0].split() if not t.startswith(("cls=", "syn=")))
         real = seqcheck.exec_real(Real, case)
         ex.evaluations += len(case)
         ex.traces_validated += 1
-        ex.count("class_nonrepresentable", dict(t.split("=", 1) for t in case[0].split() if t.startswith("cls="))["cls"])
+        ex.count("class_record_inclusive" if isinc else "class_nonrepresentable",
+                 dict(t.split("=", 1) for t in case[0].split() if t.startswith("cls="))["cls"])
+        if isinc:
+            for l in case:
+                t = l.split()
+                ex.count("ops_record_inclusive", t[0] + (":" + t[1] if t[0] == "set" else ""))
         if any(l.startswith("set") and x[0] == "ok" for l, x in zip(case, real)):
             ex.nontriv(tuple(case))
         d = compare_relational(case, real)
@@ -760,9 +885,14 @@ def explore(ctx) -> Exploration:
             continue
         if "harness-exception" in str(d):
             raise RuntimeError(f"harness failure on {case[:d[0] + 1]}: {d}")
-        nflt_found += 1
-        if nflt_found > 4:
-            continue
+        if isinc:
+            ninc_found += 1
+            if ninc_found > 4:
+                continue
+        else:
+            nflt_found += 1
+            if nflt_found > 4:
+                continue
         small = list(case[:d[0] + 1])
         for i in range(len(small) - 2, 0, -1):          # greedy deletion keeping the relational difference
             cand = small[:i] + small[i + 1:]
@@ -770,10 +900,12 @@ def explore(ctx) -> Exploration:
                 small = cand
         d2 = compare_relational(small, seqcheck.exec_real(Real, small)) or d
         ex.findings.append(Finding(
-            kind="spec", key=key_of(small, d2) + ":nonrepresentable",
+            kind="spec", key=key_of(small, d2) + (":record-level" if isinc else ":nonrepresentable"),
             what=f"op `{small[d2[0]]}`: expected `{d2[2]}` observed `{d2[3]}`",
             case={"ops": small, "index": d2[0], "expected": d2[2], "observed": d2[3],
-                  "disagreement": "setter-built vs freshly constructed instance (real code), non-representable dt/duration"}))
+                  "disagreement": ("setter-built vs freshly constructed instance / closed form of the history size (real code), "
+                                   "record-level `inclusive` assignment" if isinc else
+                                   "setter-built vs freshly constructed instance (real code), non-representable dt/duration")}))
     for k, v in sorted(STATS.items()):
         ex.count("real_side", k, v)
     ex.rule = (
@@ -786,11 +918,19 @@ def explore(ctx) -> Exploration:
         "and with both Lean machines; every case ends with clear() on both instances and an exact comparison of outputs on a "
         "seeded input sequence — values AND observable write mode (storage tensor reused or not per record, and for reducers fed "
         "grad-requiring observations whether peek()/storage keep the graph); + a NON-REPRESENTABLE relational stream (dt in "
-        "{0.1,0.2,0.3,0.7} by assignment, delay/duration = k*dt as short decimals) on the real code only; a case is non-trivial "
-        "when at least one assignment succeeded")
+        "{0.1,0.2,0.3,0.7} by assignment, delay/duration = k*dt as short decimals) on the real code only; + a RECORD-LEVEL "
+        "relational stream: `inclusive` of every internal history assigned through the component's public attributes "
+        "(reducer.data_, synapse.spike_/current_/…; connections through their synapse), interleaved with the component setters "
+        "and steps, half of the configurations undelayed (delay / duration 0), held after every assignment against the closed "
+        "form max(ceil(duration/dt)+[inclusive],1) and against a fresh instance wherever a constructor yields the configuration; "
+        "a case is non-trivial when at least one assignment succeeded")
     ex.samples = [grid[0], grid[len(grid) // 2], rnd[0], rnd[-1]]
     ex.extra["streams"] = {"corpus": ncorpus, "attribute_pair_grid": len(grid), "random_sequences": len(rnd),
-                           "nonrepresentable_relational_only": len(flt)}
+                           "nonrepresentable_relational_only": len(flt), "record_inclusive_relational_only": len(inc)}
+    ex.extra["record_inclusive_stream"] = {
+        "cases": len(inc), "relational_differences": ninc_found,
+        "undelayed_heads": sum(1 for c_ in inc if " 0/1 " in c_[0]),
+        "sample": inc[len(inc) // 2] if inc else []}
     ex.extra["nonrepresentable_stream"] = {
         "cases": len(flt), "relational_differences": nflt_found,
         "what": "dt in {0.1,0.2,0.3,0.7} reached by assignment, delay/duration = k*dt as short decimals (k=1..%d); "
@@ -807,8 +947,7 @@ def replay(ctx, data) -> int:
         print("replay file has no op sequence (proof/tie breakage without failing input):", data.get("broken"))
         return 1
     real = seqcheck.exec_real(Real, case)
-    floaty = any("." in t for t in case[0].split() if not t.startswith(("cls=", "syn=")))
-    if floaty:      # non-representable stream: real code only (setter-built vs fresh), the Lean driver is not involved
+    if relational_only(case):      # relational streams: real code only (setter-built vs fresh / closed form), no Lean driver
         for l, r in zip(case, real):
             print(f"{l}\n    real: setter-built {r[0]}\n          fresh        {r[1]}\n          relational   {r[2] if len(r) > 2 else []}")
         d = compare_relational(case, real)
